@@ -148,5 +148,8 @@ var reIfaceConv2 = regexp.MustCompile(`interface conversion: [^ ]+ is [^,]+, not
 func PanicSig(stack, value string, strip func(string) string) string {
 	msg := reIfaceConv.ReplaceAllString(value, "interface {} is _, not ")
 	msg = reIfaceConv2.ReplaceAllString(msg, "interface conversion: _ is _, not ")
-	return "panic:" + DeepPanicSite(stack) + ":" + strip(msg)
+	return NoSpace("panic:" + DeepPanicSite(stack) + ":" + strip(msg))
 }
+
+// NoSpace makes a signature a single token (the findings files are parsed field by field).
+func NoSpace(s string) string { return strings.ReplaceAll(s, " ", "_") }
